@@ -96,7 +96,11 @@ func (ev *Evaluator) note(t types.Type, v Term) {
 		return
 	}
 	for _, f := range facts {
-		ev.fx.s.assume(ev.st.guard, f)
+		if ev.fx.assumeMode {
+			ev.fx.s.assume(ev.st.guard, f)
+		} else {
+			ev.fx.s.assumeLocal(ev.st.guard, f)
+		}
 	}
 }
 
@@ -751,6 +755,14 @@ func (ev *Evaluator) call(x *ECall) SVal {
 		case "loc":
 			t := ev.eval(x.Args[0])
 			return SVal{v: Val{t: "(t_loc " + t.v.t + ")"}, sort: "Ref"}
+		case "atoiOK":
+			a := ev.eval(x.Args[0])
+			fx.ufun("atoi_ok", []string{"String"}, "Bool")
+			return SVal{v: Val{t: "(atoi_ok " + a.v.t + ")"}, typ: boolT}
+		case "atoiVal":
+			a := ev.eval(x.Args[0])
+			fx.ufun("atoi_val", []string{"String"}, "Int")
+			return SVal{v: Val{t: "(atoi_val " + a.v.t + ")"}, typ: intT}
 		case "itoa":
 			a := ev.eval(x.Args[0])
 			return SVal{v: Val{t: intToStr(a.v.t)}, typ: stringT}
